@@ -425,6 +425,35 @@ def r6_at_least_one_visit(ctx):
         ctx.check("AGE_AT_BASELINE" in first, "C18.R6", f, st0, "the first visit is the baseline age", f"the first visit is `{first[:60]}`, not the baseline age", construct="first visit = baseline")
 
 
+def r8_table_ages_keyed_by_their_own_id(ctx):
+    """'exactly the individuals of a supplied visit table': each individual gets the ages of ITS rows - the dictionary is keyed by the
+    groups' own identifiers (`groupby('ID')[...].apply(list).to_dict()`), never paired by position with an independently ordered
+    sequence (groupby sorts the identifiers; an index follows first appearance)."""
+    ctx.rule("C18.R8", "table-driven design: ages keyed by the identifier of their own group", 1)
+    f = ctx.ix.func(SIM, f"{CLS}._generate_visit_ages", "C18.R8")
+    cfg = CFG(f.node)
+    from ..astq import Canon
+    cn = Canon(f.node)
+    rets = []
+    for n, st in cfg.stmt.items():
+        if isinstance(st, ast.Return) and st.value is not None and any(U(cfg.stmt[h].test) == "self.visit_type == VisitType.DATAFRAME" and lab for h, lab in cfg.if_guards(n)):
+            rets.append(st)
+    if not rets:
+        ctx.unknown("C18.R8", f, f.node, "no return under `self.visit_type == VisitType.DATAFRAME` in _generate_visit_ages")
+        return
+    for r in rets:
+        txt = cn.text(r.value)
+        good = txt in ("$0.param_study['df_visits'].groupby('ID')['TIME'].apply(list).to_dict()", "$0.param_study['df_visits'].groupby('ID')['TIME'].agg(list).to_dict()")
+        if good:
+            ctx.ok("C18.R8", f, r, "ages keyed by the groupby's own identifiers")
+        elif "zip(" in Inliner(f.node).text(r.value) and "groupby(" in Inliner(f.node).text(r.value):
+            txt = Inliner(f.node).text(r.value)
+            ctx.violation("C18.R8", f, r, f"`{txt[:100]}` pairs the per-individual ages (groupby: identifiers sorted) by position with another sequence of identifiers: individuals whose "
+                          "identifiers do not first appear in sorted order are simulated at another individual's ages")
+        else:
+            ctx.unknown("C18.R8", f, r, f"`{txt[:100]}`: neither the confirmed form nor a positional pairing")
+
+
 def r7_options_reach_param_study(ctx):
     """An option that the algorithm reads from `self.param_study` but that `_set_param_study` cannot copy there is silently ignored: it is
     neither validated ('refused with an algorithm-input error') nor honoured ('the documented precision')."""
@@ -464,6 +493,7 @@ def rules(ctx):
     r5_beta_domain(ctx)
     r6_at_least_one_visit(ctx)
     r7_options_reach_param_study(ctx)
+    r8_table_ages_keyed_by_their_own_id(ctx)
     ctx.trust("isinstance / `in` semantics; the shipped default_simulate.json provides the top-level keys")
 
 
